@@ -79,6 +79,21 @@ ASSUMPTIONS += [
     "the components' levels, every row non-zero only in the slot of its own cell), and by all the later "
     "stages (prediction, re-evaluation) like every other design",
 ]
+ASSUMPTIONS += [
+    "zero-width blocks: 90 (thorough: 1500) more designs (family `z`, plus a small corpus `zc`) on frames in "
+    "which one or two of the categorical columns f, h, g, cu, co, k are left with ONE level in the data (the "
+    "frame was cut down to one arm; for the pandas categoricals with or without the unused declared "
+    "categories), besides the one-level column `one`: 1-3 group-specific terms whose effect side mixes such "
+    "a factor (bare, through C(), in an interaction with a numeric or another factor, two of them) with "
+    "ordinary effects, the zero-width effect written first / in the middle / last, with and without the group "
+    "intercept, over the same and over other grouping factors (now and then a one-level grouping factor: "
+    "a single group); under reduced coding such an effect has no column, so its block has the width groups x 0 "
+    "= 0 and the blocks around it must still be theirs.  Judged by the same Spec.C05.check (blockRowOk: width "
+    "= groups x effect columns, including 0; labels: one per column, so none) and by all later stages "
+    "(prediction with unseen groups, re-evaluation).  For this family every block is read twice, through "
+    "group[name] and as design_matrix[:, slices[name]], at training time and on every object returned by "
+    "evaluate_new_data, and both readings are judged",
+]
 TRUSTED = ["scipy.linalg.khatri_rao is modelled by the row product (Model/Matrices.lean:khatriRao)"]
 
 EFFECTS = ["1", "x", "f", "x + f", "0 + f", "f:x", "z", "0 + x", "h", "center(x)", "x + z", "C(k)",
@@ -231,6 +246,92 @@ def redeclare_categories(r, nd, cols):
         if new != cats:
             nd[c] = pd.Categorical(nd[c].tolist(), categories=new, ordered=bool(dt.ordered))
             out[c] = [str(l) for l in new]
+    return out
+
+# ------------------------------------------------------------------------------------------------
+# zero-width blocks: a categorical effect with ONE level in the data has no column under reduced
+# coding (group intercept present); its block is groups x 0 wide and every other block of the
+# matrix must still be the Kronecker rows of its own term (family `z`)
+# ------------------------------------------------------------------------------------------------
+COLLAPSIBLE = ["f", "h", "g", "cu", "co", "k"]
+ZERO_CORPUS = ["y ~ (one + x | g)", "y ~ (one | g) + (x | h)", "y ~ (x + one:z | g:h) + (1 | k)",
+               "y ~ x + (f + one + z | h) + (0 + x | g)", "y ~ (one | g) + (0 + z | g) + (one:x | h)"]
+
+
+def is_zero_path(path):
+    return str(path).startswith("z")
+
+
+def collapse_levels(r, df):
+    """-> (frame, one-level columns): one or two of the categorical columns keep a single level in the
+    data (every row gets a drawn level of the column); a pandas categorical keeps its declared
+    categories or -- more often -- declares the remaining level only.  `one` is such a column already"""
+    out = df.copy()
+    chosen = r.sample(COLLAPSIBLE, r.choice([1, 1, 2]))
+    for c in chosen:
+        col = out[c]
+        if isinstance(col.dtype, pd.CategoricalDtype):
+            lv = r.choice(list(col.dtype.categories))
+            cats = [lv] if r.random() < 0.7 else list(col.dtype.categories)
+            out[c] = pd.Categorical([lv] * len(out), categories=cats, ordered=bool(col.dtype.ordered))
+        else:
+            lv = r.choice(sorted(set(col.tolist())))
+            out[c] = [lv] * len(out)
+    return out, sorted(chosen) + ["one"]
+
+
+def gen_zero_width(r, single):
+    """1-3 group-specific terms; the effect side of at least one holds a factor with one level in the
+    data (zero columns under reduced coding) before / between / after ordinary effects"""
+    multi = [v for v in ("f", "h", "cu", "co") if v not in single]
+
+    def zero_piece(free):
+        s = r.choice([v for v in single if v in free] or ["one"])
+        pool = [s, s, f"C({s})", f"{s}:x", f"x:{s}", f"{s}:z"]
+        pool += [f"{s}:{s2}" for s2 in single if s2 != s and s2 in free]
+        pool += [f"{s}:{m}" for m in multi if m in free] + [f"{m}:{s}" for m in multi if m in free]
+        return r.choice(pool)
+
+    def plain_piece(free):
+        pool = ["x", "z", "x", "z", "center(x)", "x:z", "I(x + 1)"]
+        pool += [m for m in multi if m in free] + [f"{m}:x" for m in multi if m in free]
+        return r.choice(pool)
+
+    groupings = ["g", "h", "g:h", "C(k)", "k", "cu", "co", "g + h", "g/h", "f", "co:h"]
+    terms, used_factors = [], []
+    n_terms = r.choice([1, 1, 2, 2, 3])
+    for i in range(n_terms):
+        if used_factors and r.random() < 0.35:
+            grp = r.choice(used_factors)                       # another term of the same grouping factor
+        elif r.random() < 0.15:
+            grp = r.choice([v for v in single if v != "one"] or ["one"])     # a single group
+        else:
+            grp = r.choice(groupings)
+        free = set(single + multi + ["one"]) - _vars(grp)
+        pieces = []
+        n_zero = r.choice([1, 1, 2]) if (i == 0 or r.random() < 0.6) else 0
+        for _ in range(n_zero):
+            pieces.append(zero_piece(free))
+        for _ in range(r.choice([0, 1, 1, 2]) if pieces else r.choice([1, 2])):
+            pieces.append(plain_piece(free))
+        pieces = list(dict.fromkeys(pieces))
+        r.shuffle(pieces)
+        icpt = r.choice(["", "", "", "1 + ", "0 + "]) if grp not in used_factors else \
+            r.choice(["0 + ", "0 + ", ""])
+        terms.append(f"({icpt}{' + '.join(pieces)} | {grp})")
+        used_factors.append(grp)
+    common = r.choice(["", "", "x + ", "one + ", "f + ", "0 + x + "])
+    return "y ~ " + common + " + ".join(terms)
+
+
+def via_slices(terms, group):
+    """the same blocks read as design_matrix[:, slices[name]] (same judge, other reading)"""
+    dmx = np.asarray(group.design_matrix)
+    out = []
+    for t in terms:
+        sl = group.slices[t["name"]]
+        out.append(dict(t, z=designs.mat(dmx[:, sl]),
+                        via=f"design_matrix[:, slices[{t['name']!r}]] = columns {sl.start}:{sl.stop}"))
     return out
 
 
@@ -451,7 +552,8 @@ def new_frames(r, df, dm, n_new, r_plain=None, r_cats=None):
     return out
 
 
-def prediction_requests(r, formula, df, dm, req, n_new, res, r_plain=None, r_cats=None):
+def prediction_requests(r, formula, df, dm, req, n_new, res, r_plain=None, r_cats=None,
+                        both_readings=False):
     """-> [(case extension, c05_new_spec request)] for the objects returned by
     group.evaluate_new_data on generated new frames"""
     import formulae
@@ -483,6 +585,8 @@ def prediction_requests(r, formula, df, dm, req, n_new, res, r_plain=None, r_cat
                     if isinstance(t.expr, Intercept) or not (set(t.expr.var_names) & changed):
                         term["z_train"] = designs.mat(dm.group[name])
                     terms.append(term)
+                if both_readings:           # ... and as design_matrix[:, slices[name]] of the derived object
+                    terms += via_slices(terms, new)
                 slices = [[k, sl.start, sl.stop] for k, sl in new.slices.items()]
         except Exception as e:  # noqa  (whether a new frame may be refused is C10's subject)
             res.count("prediction_error:" + type(e).__name__)
@@ -536,7 +640,7 @@ def judge_new(res, owners_new, reqs_new):
                                 "slot for an unseen group), carrying e's values there; slots as wide "
                                 "as at training; one label per training column",
                     "why": f"block {t['name']} of group.evaluate_new_data(new frame) read through "
-                           "new[name]: " + ", ".join(bad) + " violated"})
+                           + t.get("via", "new[name]") + ": " + ", ".join(bad) + " violated"})
 
 
 SECOND_FRAMES = ["permuted", "resampled", "relabelled", "reassigned", "merged", "fresh-same-length",
@@ -657,7 +761,11 @@ def explore(tier, seed, res=None, replay=None):
                 "pandas categorical columns (ordered / unordered; bare, C(), T(), S(); grouping factor or "
                 "effect), 60 (thorough: 1000) more designs whose grouping factor is an interaction / nesting of "
                 "three or four categorical variables with unequal level counts (f 3, g 4, h 2, cu 3, co 3, "
-                "k 3) in any component order, and for every design that uses a pandas categorical column one more new frame of training "
+                "k 3) in any component order, 90 (thorough: 1500) more designs on frames in which one or two "
+                "categorical columns have ONE level in the data, with 1-3 group-specific terms whose effects mix "
+                "such factors (zero-width blocks under reduced coding) with ordinary effects in any order, over "
+                "the same / other / single-group grouping factors, every block read through group[name] and "
+                "through the slices at training time and after evaluate_new_data, and for every design that uses a pandas categorical column one more new frame of training "
                 "rows whose categorical columns declare another category list (absent levels dropped, "
                 "order kept; unordered: now and then reordered); for 40% of the designs one model description "
                 "(model_description + DesignMatrices) evaluated on the frame and then on a second frame "
@@ -681,13 +789,22 @@ def explore(tier, seed, res=None, replay=None):
             cases.append((f, f"wc{i}"))
         for i in range(60 if tier == "quick" else 1000):
             cases.append((None, f"w{i}"))
+        for i, f in enumerate(ZERO_CORPUS):
+            cases.append((f, f"zc{i}"))
+        for i in range(90 if tier == "quick" else 1500):
+            cases.append((None, f"z{i}"))
     reqs_spec, reqs_model, owners = [], [], []
     reqs_new, owners_new = [], []
     reqs_re, owners_re = [], []
     for f, path in cases:
         r = rng_for(seed, "c05", path)
         df = designs.gen_frame(r, n=r.randrange(12, 30))
-        formula = f or (gen_multi(r) if str(path).startswith("m") else
+        single = None
+        if is_zero_path(path):          # (before the formula is drawn: a replay makes the same frame)
+            df, single = collapse_levels(r, df)
+            res.count("formulas: effects over factors with one level in the data (zero-width blocks)")
+        formula = f or (gen_zero_width(r, single) if single else
+                        gen_multi(r) if str(path).startswith("m") else
                         gen_categorical_case(r) if str(path).startswith("o") else
                         gen_multiway(r) if str(path).startswith("w") else gen_case(r))
         if str(path).startswith("w"):
@@ -700,6 +817,8 @@ def explore(tier, seed, res=None, replay=None):
         res.evaluations += 1
         obs, req = designs.observe(formula, df, designs.NAMES)
         case = {"formula": formula, "seed_path": path}
+        if single:
+            case["columns_with_one_level_in_the_data"] = {c: str(df[c].iloc[0]) for c in single}
         if req is None:
             res.count("impl_error:" + obs["err"])
             continue
@@ -714,6 +833,12 @@ def explore(tier, seed, res=None, replay=None):
             terms.append({"name": name, "factor": [str(c.name) for c in t.factor.components],
                           "groups": list(t.groups), "x": designs.mat(x),
                           "z": designs.mat(dm.group[name]), "labels": term_labels(t)})
+        if single:
+            for t in terms:
+                if t["z"] and not t["z"][0]:
+                    res.count("zero-width blocks judged" + (
+                        "" if t["name"] == list(dm.group.terms)[-1] else " (followed by another block)"))
+            terms += via_slices(terms, dm.group)        # the same blocks read through the slices
         reqs_spec.append({"op": "c05_spec", "formula": formula, "frame": req["frame"],
                           "names": req["names"], "terms": terms})
         reqs_model.append(req)
@@ -722,7 +847,8 @@ def explore(tier, seed, res=None, replay=None):
         for ext, rq in prediction_requests(rng_for(seed, "c05", "new", path), formula, df, dm,
                                            req, 2 if tier == "quick" else 3, res,
                                            rng_for(seed, "c05", "new-plain", path),
-                                           rng_for(seed, "c05", "new-categories", path)):
+                                           rng_for(seed, "c05", "new-categories", path),
+                                           both_readings=bool(single)):
             reqs_new.append(rq)
             owners_new.append(dict(case, **ext))
         # re-evaluation stage: one model description evaluated on this frame, then on another one
@@ -790,10 +916,13 @@ def explore(tier, seed, res=None, replay=None):
                         res.known_hit[fid] = res.known_hit.get(fid, 0) + 1
                     res.failures.append({"case": case, "impl": {"term": t["name"], "groups": t["groups"],
                                                                 "labels": t.get("labels"),
+                                                                "slices": (obs.get("group") or {}).get("slices"),
                                                                 "columns": len(t["z"][0]) if t["z"] else 0,
                                                                 "effect_columns": len(t["x"][0]) if t["x"] else 0},
                                          "expected": "block structure", "finding": fid,
-                                         "why": f"group-specific term {t['name']}: " + ", ".join(bad)})
+                                         "why": f"group-specific term {t['name']}"
+                                                + (f" read as {t['via']}" if "via" in t else "")
+                                                + ": " + ", ".join(bad)})
                 elif v.get("class_d30"):
                     res.count("inside-class-D30-but-holds")
         if "err" in mo:
